@@ -103,6 +103,16 @@ CLAIMS = {
         note="Trusted: TLC, the EditText implementation in props/c14.py (written from the statement, cross-checked against the "
              "specification's option bags by the TLC invariant). Path components are basic-key shaped.",
         technique="TLA+ loader spec with option bags, self-composition (override vs edited text) checked by TLC; replayed on the code"),
+    "C16": dict(
+        text="TLC runs the loader specification on schemas with handler attributes on random subsets of all items (schema, keys, "
+             "multikeys, sections, multisections, nesting 3) and random texts, checking that the handler list built operationally "
+             "(appended per item when a section is finished) equals the declarative post-order list read off the parse tree with "
+             "the tree's values (HandlerOrderIsPostOrder, TreeIsValueTree2); on the real code len(), the (name, value) call "
+             "sequence, identity of the values with the tree's objects, and the all-or-nothing behaviour for incomplete, None and "
+             "case-variant-duplicate maps (ZConform!CallOutcome) are compared.",
+        design="3 (C16)",
+        note="Trusted: TLC, the recording callables and projection in props/c16.py. Random subsets/texts, not exhaustive.",
+        technique="TLA+ loader spec handler list vs declarative post-order list checked by TLC; call sequences replayed on the code"),
 }
 
 NOT_YET = "check not built yet (construction order in DESIGN.md section 8)"
